@@ -143,9 +143,9 @@ pub fn three_namespace_chains(tier: &str) -> Vec<State> {
             }
             placements = next;
         }
-        for pl in placements {
+        for (pl, reverse_imports) in placements.iter().flat_map(|p| [(p.clone(), false), (p.clone(), true)]) {
             let distinct: std::collections::BTreeSet<usize> = pl.iter().copied().collect();
-            if distinct.len() < 2 || (d == 1 && distinct.len() < 2) {
+            if distinct.len() < 2 {
                 continue;
             }
             let mut files: Vec<XsdFile> = (0..3).map(|k| XsdFile { name: FILE[k].into(), tns: NS[k].into(), prefixes: (k..3).map(|j| (format!("n{j}"), NS[j].to_string())).collect(), default_ns: None, imports: vec![], comps: vec![] }).collect();
@@ -161,11 +161,19 @@ pub fn three_namespace_chains(tier: &str) -> Vec<State> {
             // the start file always reaches every file: gamma -> beta -> alpha
             needs.insert((0, 1));
             needs.insert((1, 2));
+            // the start file ALWAYS imports both other files (a diamond: alpha is reached directly and
+            // through beta); the order of the import statements is varied
+            needs.insert((0, 2));
             for (from, to) in needs {
                 files[from].imports.push(Import { ns: NS[to].into(), loc: Some(FILE[to].into()) });
             }
+            if reverse_imports {
+                for f in files.iter_mut() {
+                    f.imports.reverse();
+                }
+            }
             let names: Vec<String> = pl.iter().enumerate().map(|(i, k)| format!("T{i}[{}]", ["gamma", "beta", "alpha"][*k])).collect();
-            out.push(State { label: format!("chain3ns {}", names.join(" <- ")), depth: d as u32, set: SchemaSet { files, wsdl: None, start: "g.xsd".into() } });
+            out.push(State { label: format!("chain3ns {}{}", names.join(" <- "), if reverse_imports { " imports-reversed" } else { "" }), depth: d as u32, set: SchemaSet { files, wsdl: None, start: "g.xsd".into() } });
         }
     }
     out
@@ -300,7 +308,7 @@ pub fn check(tier: &str) -> i32 {
     rep.set("max_depth", json!(if tier == "quick" { 2 } else { 4 }));
     rep.set("states_fully_conformant", json!(conformant));
     rep.set("exhaustive", json!(true));
-    rep.set("bound", json!("extension chains of depth 1 (full product: files x declaration order x 5x5 own contents, + fan-out, + forward-lookup decoy) and depth 2 (thorough: up to 4): all file placements x declaration orders with fixed contents, all contents (3 kinds) for two file layouts; depth 3 and 4 in one file fully base-first and fully derived-first; every acyclic placement of a depth 1-2 (thorough: 3) chain over three namespaces/files"));
+    rep.set("bound", json!("extension chains of depth 1 (full product: files x declaration order x 5x5 own contents, + fan-out, + forward-lookup decoy) and depth 2 (thorough: up to 4): all file placements x declaration orders with fixed contents, all contents (3 kinds) for two file layouts; depth 3 and 4 in one file fully base-first and fully derived-first; every acyclic placement of a depth 1-2 (thorough: 3) chain over three namespaces/files whose import graph is a diamond (start -> beta -> alpha, start -> alpha), import statements in both orders"));
     rep.assume("reference model: base members (recursively, base first) then own elements in document order then own attributes (DESIGN 3.6)");
     rep.finish()
 }
